@@ -18,9 +18,10 @@ PINS = {
     'C10': ['exec_pool', 'exec_container'],
     'C11': ['exec_pool', 'exec_container'],
     'C12': ['status_queries', 'sched_wrapper', 'waiting_queue', 'exec_pool', 'exec_container', 'exec_assignment'],
-    'C13': ['trace_replay', 'csv_io', 'cli_run', 'workload_base', 'sim_loop'],
+    'C13': ['trace_replay', 'csv_io', 'cli_run', 'workload_base', 'sim_loop', 'cli_main'],
     'C14': ['trace_replay', 'csv_io', 'segment_class', 'workload_base'],
     'C15': ['workload_gen'],
+    'C20': ['cli_main', 'tools_cli'],
     'C16': ['status_queries', 'sched_wrapper', 'waiting_queue', 'exec_pool', 'exec_container', 'exec_assignment'],
     'C17': ['status_queries', 'sched_wrapper', 'exec_pool', 'exec_container', 'exec_assignment'],
     'C18': ['status_queries', 'sched_wrapper', 'exec_pool', 'exec_container', 'exec_assignment'],
